@@ -505,29 +505,41 @@ func nullArmNotCounted(r *core.Run) {
 		return
 	}
 	info := pk.TypesInfo
-	// the counted list: the operand of the `len(x) > 1` guard
+	// the counted list: the captured []string the member callback appends its key parameter to
 	var counted types.Object
-	core.InspectTree(pk, fd.Body, func(n ast.Node) bool {
-		if is, ok := n.(*ast.IfStmt); ok {
-			ast.Inspect(is.Cond, func(m ast.Node) bool {
-				if e, ok := m.(ast.Expr); ok && rules.IsLenGreaterThanOne(info, e) {
-					ast.Inspect(e, func(k ast.Node) bool {
-						if c, ok := k.(*ast.CallExpr); ok && core.CalleeName(info, c) == "builtin.len" {
-							if id, ok := core.Unparen(c.Args[0]).(*ast.Ident); ok {
-								counted = info.ObjectOf(id)
-							}
-						}
-						return true
-					})
-				}
-				return true
-			})
+	ast.Inspect(fd.Body, func(n ast.Node) bool {
+		fl, ok := n.(*ast.FuncLit)
+		if !ok || fl.Type.Params == nil || len(fl.Type.Params.List) != 1 || len(fl.Type.Params.List[0].Names) != 1 {
+			return true
 		}
+		kobj := info.ObjectOf(fl.Type.Params.List[0].Names[0])
+		if b, ok := kobj.Type().Underlying().(*types.Basic); !ok || b.Kind() != types.String {
+			return true
+		}
+		ast.Inspect(fl.Body, func(m ast.Node) bool {
+			as, ok := m.(*ast.AssignStmt)
+			if !ok || len(as.Lhs) != 1 || len(as.Rhs) != 1 {
+				return true
+			}
+			c, ok := core.Unparen(as.Rhs[0]).(*ast.CallExpr)
+			if !ok || core.CalleeName(info, c) != "builtin.append" || len(c.Args) != 2 {
+				return true
+			}
+			if id, ok := core.Unparen(c.Args[1]).(*ast.Ident); !ok || info.ObjectOf(id) != kobj {
+				return true
+			}
+			if id, ok := as.Lhs[0].(*ast.Ident); ok {
+				if v := info.ObjectOf(id); v != nil && !(fl.Pos() <= v.Pos() && v.Pos() <= fl.End()) {
+					counted = v
+				}
+			}
+			return true
+		})
 		return true
 	})
 	o := r.Add("R-ERR/E4n", codecRel+".decoder.decodeOneofInner | null members are not counted", fd.Pos(), "which keys count towards `more than one key`")
 	if counted == nil {
-		o.Fail("the list whose length decides `more than one key` was not found")
+		o.Fail("the list of keys the member callback collects was not found")
 		return
 	}
 	var stack []ast.Node
@@ -586,4 +598,24 @@ func nullArmNotCounted(r *core.Run) {
 	default:
 		o.Fail("every key is counted, also one whose value is null: {\"a\": null, \"b\": 1} is rejected as `multiple keys` although an explicit null is the documented spelling of an absent member")
 	}
+}
+
+// queryOrderFree (R-DET/N1 over the query decoder): url.Values is a map. The
+// parameters of one request are applied one after the other — a parameter
+// addresses a member of a container another parameter may create or fill, and
+// the first error ends the call — so the order in which they are applied is
+// visible in the result. It must not be the iteration order of the map.
+func queryOrderFree(r *core.Run, sc *rules.Scope) {
+	sub := *sc
+	sub.Funcs = nil
+	for _, f := range sc.Funcs {
+		if f.Pkg.PkgPath == core.Module+"/"+codecRel && strings.HasSuffix(r.P.Fset.Position(f.Node.Pos()).Filename, "/query.go") {
+			sub.Funcs = append(sub.Funcs, f)
+		}
+	}
+	if len(sub.Funcs) == 0 {
+		r.Fatal("R-DET/N1: the query decoder (internal/codec/query.go) is not in scope")
+		return
+	}
+	rules.Determinism(r, &sub, "det_sites")
 }
